@@ -308,8 +308,14 @@ where
         // In the DISCARDING state, any incoming frames on the connection MUST
         // be silently discarded until the peer's close frame is received
         // (AMQP 1.0 section 2.4.6).
-        if matches!(self.connection.local_state(), ConnectionState::Discarding)
-            && !matches!(frame.body, FrameBody::Close(_))
+        //
+        // Once the local close has been sent without an error (CLOSE_SENT), frames that
+        // the peer had sent before it saw the close may still arrive. They can no longer
+        // be acted on and are not a protocol violation; only the peer's close matters.
+        if matches!(
+            self.connection.local_state(),
+            ConnectionState::Discarding | ConnectionState::CloseSent
+        ) && !matches!(frame.body, FrameBody::Close(_))
         {
             return Ok(Running::Continue);
         }
